@@ -137,7 +137,9 @@ class C13(InputProp):
         self.metabook, self.nserve, self.serve, self.myjson = metabook, nserve, serve, myjson
         small = Product(Seqs(ITEMS, 2), FIELDSETS, name="small-x-fields")
         # pairs of metabooks that differ in ONE string field, and there only in blanks (their number or their position)
-        blanks = [("New York", "NewYork"), ("a b", "ab"), ("a  b", "a b"), ("a reader", "area der"), ("ab", " ab"), ("Ä b c", "Äb c")]
+        blanks = [("New York", "NewYork"), ("a b", "ab"), ("a  b", "a b"), ("a reader", "area der"), ("ab", " ab"), ("Ä b c", "Äb c"),
+                  # (wave 11) titles that differ only in their Unicode normalisation form are different titles
+                  ("Cafe\u0301", "Caf\u00e9"), ("\u212b", "\u00c5")]
         pairs = []
         for v1, v2 in blanks:
             art = lambda t, r=None, d=None: ("A", t, r, d)  # noqa
